@@ -357,3 +357,6 @@ class GHE(BaseGHE):
         )
 
         self.bhe.b.H = returned_height
+        # solve_root evaluates the lower bound first and the upper bound last: when the height is clamped (or the
+        # last iterate is not the root) the stored temperatures belong to another height, so simulate once more
+        self.simulate(method=method)
